@@ -279,12 +279,18 @@ def stage_mir(which):
     name = f"mir-{which}"
 
     def build(d):
+        import fcntl
         tdir = os.path.join(core.CACHE, "target-nightly")
-        for fp in glob.glob(os.path.join(tdir, "debug", ".fingerprint", _FP[which])):
-            shutil.rmtree(fp, ignore_errors=True)
-        cmd = ["cargo", "+nightly", "rustc", "--offline"] + MIR_TARGETS[which] + \
-              ["--", "-Zunpretty=mir", "-Zmir-opt-level=0", "-Awarnings"]
-        p = sh(cmd, cwd=REPO, env={"CARGO_TARGET_DIR": tdir}, check=False, timeout=1800)
+        os.makedirs(core.CACHE, exist_ok=True)
+        # the MIR dumps of the different crates share one target directory and remove each other's fingerprints:
+        # checks started in parallel must not interleave them
+        with open(os.path.join(core.CACHE, ".lock-mir-target"), "w") as lk:
+            fcntl.flock(lk, fcntl.LOCK_EX)
+            for fp in glob.glob(os.path.join(tdir, "debug", ".fingerprint", _FP[which])):
+                shutil.rmtree(fp, ignore_errors=True)
+            cmd = ["cargo", "+nightly", "rustc", "--offline"] + MIR_TARGETS[which] + \
+                  ["--", "-Zunpretty=mir", "-Zmir-opt-level=0", "-Awarnings"]
+            p = sh(cmd, cwd=REPO, env={"CARGO_TARGET_DIR": tdir}, check=False, timeout=3600)
         if p.returncode != 0:
             raise StageError(f"MIR dump of {which} failed:\n" + p.stderr[-4000:])
         if "fn " not in p.stdout:
